@@ -37,7 +37,9 @@ Proof. apply res_eqb_eq. apply lines_eqb_eq. Qed.
 
 Lemma jval_eqb_eq a b : jval_eqb a b = true <-> a = b.
 Proof.
-  destruct a as [x|x], b as [y|y]; cbn; split; intros E; try discriminate; try congruence.
+  destruct a as [|x|x|x| |], b as [|y|y|y| |]; cbn; split; intros E; try discriminate; try reflexivity; try congruence.
+  - apply Bool.eqb_prop in E. congruence.
+  - inversion E. apply Bool.eqb_reflx.
   - apply N.eqb_eq in E. congruence.
   - inversion E. apply N.eqb_refl.
   - apply text_eqb_eq in E. congruence.
@@ -64,7 +66,8 @@ Definition mode_ok (m : fmode) : bool := match m with TextTable tbl => table_ok 
 
 Definition c19_wf (k : c19_case) : bool :=
   match k with
-  | CRev _ m _ rruns => mode_ok m && negb (is_nil rruns) && forallb (fun r => 1 <=? fst r) rruns
+  | CRev _ own arg _ rruns =>
+      mode_ok (mode_of (caller_wins arg own)) && negb (is_nil rruns) && forallb (fun r => 1 <=? fst r) rruns
   | CJsonl _ m _ _ _ => mode_ok m
   | _ => true
   end.
@@ -228,7 +231,7 @@ Qed.
 Theorem verdict_sound : alts_ok gen_breaks = true ->
   forall k, c19_wf k = true -> agree_of (c19_verdict k) = true -> holds_of (c19_verdict k) = true.
 Proof.
-  intros OK k W A. destruct k as [rt robs rpy | rt rm rn robs | rc bsplit biter blstrip dec titer tlstrip | rc m pos rruns | rc m ie rfwd rrev];
+  intros OK k W A. destruct k as [rt robs rpy | rt rm rn robs | rc bsplit biter blstrip dec titer tlstrip | rc own arg pos rruns | rc m ie rfwd rrev];
     unfold agree_of, holds_of in *; cbn [c19_verdict fst snd] in *.
   - (* iter_splitlines *)
     apply andb_true_iff in A as [A _]. apply lines_eqb_eq in A. rewrite <- A.
@@ -239,6 +242,8 @@ Proof.
     reflexivity.
   - (* reverse_iter_lines *)
     cbn [c19_wf] in W. apply andb_true_iff in W as [W1 W2]. apply andb_true_iff in W1 as [W0 W1].
+    assert (PE : pick_encoding arg own = caller_wins arg own) by (destruct arg, own; reflexivity).
+    rewrite PE in A. set (m := mode_of (caller_wins arg own)) in *.
     set (c := expand rc) in *. set (p := pos_of c pos) in *.
     set (runs := map (fun r => (bs_nat c (fst r), xres (snd r))) rruns) in *.
     assert (V : forall r, In r runs -> (1 <= fst r)%nat /\ snd r = rev_value m c p).
